@@ -8,6 +8,31 @@ _NOTE = ('trusted base: the simulator itself (SimLoop, SimKernel, fake ZeroMQ) '
 _TECH = 'deterministic simulation with fault injection'
 
 META = {
+    'C04': {
+        'level': 'fault_enumeration',
+        'text': 'seeded random lives over 2-4 watchers with hook outcome '
+                'scripts, exec failures at the n-th Popen and deaths at '
+                'kernel-call boundaries, plus a systematic sweep (a death '
+                'before every kernel call of start / incr / set / reload / '
+                'restart base scenarios); at every quiescent point the list / '
+                'numprocesses / stats / status replies are compared with the '
+                'simulated kernel table',
+        'note': _NOTE, 'technique': _TECH + ' (views versus simulated process '
+                'table at quiescent points)'},
+    'C10': {
+        'level': 'exploration',
+        'text': 'request A (waiting; succeeding, failing synchronously, '
+                'failing asynchronously via hook exceptions / exec failures) '
+                'with state-changing requests B delivered after a seeded or, '
+                'in the sweep, every number of loop steps of A; refused B must '
+                'leave an identical daemon snapshot, an accepted B is only '
+                'legitimate when A had already finished (no timer wait between '
+                "B's dispatch and A's reply), a probe request must be accepted "
+                'after every history',
+        'note': _NOTE + '; the snapshot reads Arbiter/Watcher attributes '
+                '(white-box) to detect any effect of a refused request',
+        'technique': _TECH + ' (overlap sweep with before/after state '
+                     'snapshots)'},
     'C01': {
         'level': 'exploration',
         'text': 'seeded random daemon lives with worker exits, external '
